@@ -935,6 +935,9 @@ def c13(run):
                         "every text -- generated, damaged or arbitrary -- is also classified by the grammar written in TLA+ (spec/TextGrammar.tla: valid with the record it denotes / excluded / not judged) directly from its bytes; the two descriptions must agree wherever both speak (otherwise tool error)",
                         "texts whose classification the statement leaves open (all-numeric host names, '-' / '_' at unusual places in a label, 63-byte labels and 254..255-byte names, empty / very long / non-ASCII quoted text, vertical whitespace inside SOA parentheses, IPv4-in-IPv6 notation) are judged only by: no panic; anything returned is a well-formed record; inserting it leaves an accepted packet"]
     run.model("MC_Synth", "MC_Synth.cfg")
+    # the grammar against a renderer written in TLA+: Classify(Render(r, style)) = r on 2 500 (record, style) points,
+    # and every single-fault edit of the rendered text is excluded
+    run.model("MC_TextGrammar", "MC_TextGrammar.cfg")
     scen = dedupe(synthgen.scenarios(vlib.seed(), run.tier))
     obs, path = vlib.drive(scen, run.wd, "synth")
     if len(obs) != len(scen):
@@ -1344,6 +1347,11 @@ def selftest():
     ss = dedupe(synthgen.scenarios(1, "quick"))[:12]
     obs, _ = vlib.drive(ss, wd, "st_synth")
     case("C13 wire byte", "Trace_Synth", "Trace_Synth_C13.cfg", "VIOLATION-C13", obs, 3, setf(["wire"], lambda v: v[:-1] + [(v[-1] + 1) % 256]))
+    arb = [json.dumps({"do": "synth", "text": list(t.encode()), "expect": "any", "rec": synthgen.EMPTY_REC}) for t in ("ex. 60 IN MX 10 mx.ex.", "ex. 60 IN MX 65536 mx.ex.", "h.ex.  7 in a 1.2.3.4 ")]
+    obs2, _ = vlib.drive(arb, wd, "st_synth2")
+    case("C13 grammar: valid text rejected", "Trace_Synth", "Trace_Synth_C13.cfg", "VIOLATION-C13", obs2, 0, setf(["res"], lambda v: "err"))
+    case("C13 grammar: excluded text accepted", "Trace_Synth", "Trace_Synth_C13.cfg", "VIOLATION-C13", obs2, 1, setf(["res"], lambda v: "ok"))
+    case("C13 grammar: denoted record", "Trace_Synth", "Trace_Synth_C13.cfg", "VIOLATION-C13", obs2, 2, setf(["wire"], lambda v: v[:-1] + [(v[-1] + 1) % 256]))
     hist = [H.scen(base[0], [{"op": "read_question"}, H.cursor_op("AN", False, 0, [("set_raw_name", H.name("xYz", "fr")), ("next", [])]), H.op_insert("NS", 1), H.op_insert("AN", 8)])]
     groups = vlib.drive_groups(hist)
     ev = [l for g in groups for l in g]
